@@ -21,13 +21,13 @@ DESIGN = dict(
 # concrete instance kinds of harness/cmd/instance/inst.go per (model kind, origin)
 CONCRETE = {
     ("units", "global"): ["int_bytes", "int_nanos", "int_seconds", "float_seconds", "float_bytes"],
-    ("units", "fresh"): ["int_custom", "float_custom"],
+    ("units", "fresh"): ["int_custom", "float_custom", "int_custom2"],
     ("units", "rebuilt"): ["int_bytes", "int_nanos", "int_seconds", "float_seconds", "float_bytes", "int_custom",
-                           "float_custom"],
+                           "float_custom", "int_custom2"],
     ("units0", "global"): ["int_chars", "int_pct", "float_pct"],
     ("units0", "fresh"): ["int_custom0"],
     ("units0", "rebuilt"): ["int_chars", "int_pct", "float_pct", "int_custom0"],
-    ("objmap", "fresh"): ["objmap"], ("objmap", "rebuilt"): ["objmap"],
+    ("objmap", "fresh"): ["objmap"], ("objmap", "rebuilt"): ["objmap", "plugin_input"],
     ("objstruct", "fresh"): ["objstruct"], ("objstruct", "rebuilt"): ["objstruct"],
     ("mapcoll", "fresh"): ["mapcoll", "anycoll"], ("mapcoll", "rebuilt"): ["mapcoll", "anycoll"],
     ("oneof", "fresh"): ["oneof_map", "oneof_struct"], ("oneof", "rebuilt"): ["oneof_map", "oneof_struct"],
@@ -112,6 +112,7 @@ def consume(ctx, cases, results, need_race=False):
     """violations / drift / counters out of driver results; returns the trace lines"""
     trace = []
     notes = set()
+    outcomes = {}
     for case, res in zip(cases, results):
         if res.get("crash"):
             raise common.Infra("worker %s on case %s (reproduced=%s):\n%s" % (
@@ -125,7 +126,20 @@ def consume(ctx, cases, results, need_race=False):
             raise common.Infra("the driver was not built with -race")
         ctx.evaluations += r.get("evals", 0)
         for k in r.get("keys", []):
-            ctx.distinct.add(k)
+            if "|" in k:
+                # C12: (schema as built, argument) | outcome - one outcome per key over all histories and processes
+                key, outcome = k.split("|", 1)
+                ctx.distinct.add(key + "|" + outcome[:24])
+                first = outcomes.setdefault(key, (outcome, case))
+                if first[0] != outcome:
+                    ck, origin, op, tok, _ = key.split("/", 4)
+                    ctx.violation(dict(kind=case.get("kind"), op=op, arg_class=tok, divergence="result_depends_on_other_instances"),
+                                  dict(case=case, other_case=first[1], detail=dict(key=key, outcome=outcome, other_outcome=first[0],
+                                       note="the same call on the same kind of schema returned different results in two "
+                                            "histories / processes of this run although each was deterministic and equal to "
+                                            "a fresh instance in its own process: state outside the instance")))
+            else:
+                ctx.distinct.add(k)
         if r.get("needs_apply_self"):
             notes.add("schema.UnserializeScope leaves references unlinked (ValidateReferences fails); the harness "
                       "calls ApplySelf, single-threaded, before it shares a rebuilt scope")
@@ -145,7 +159,7 @@ def consume(ctx, cases, results, need_race=False):
 
 TRACE_WHY = {
     # reason the trace specification gives -> divergence of the signature
-    "result": "history_dependent_result", "nondeterministic": "nondeterministic", "argument": "argument_modified",
+    "history": "history_dependent_result", "nondeterministic": "nondeterministic", "argument": "argument_modified",
     "describe": "describe_changed", "defaults": "defaults_changed", "cache": "defaults_changed",
     "panic": "panic",
 }
@@ -157,15 +171,18 @@ def validate_trace(ctx, trace, tag, concurrent=False):
     if not trace:
         return 0
     accepted = 0
-    batch = 4000
-    for b in range(0, len(trace), batch):
-        lines = trace[b:b + batch]
-        # a batch must start with a reset line
-        if lines[0]["ev"] != "reset":
-            k = b
-            while trace[k]["ev"] != "reset":
-                k -= 1
-            lines = [trace[k]] + lines
+    # batches end at instance boundaries (reset lines): a history is never split
+    batches, cur = [], []
+    for l in trace:
+        if l["ev"] == "reset" and len(cur) >= 4000:
+            batches.append(cur)
+            cur = []
+        cur.append(l)
+    if cur:
+        batches.append(cur)
+    if trace[0]["ev"] != "reset":
+        raise common.Infra("recorded trace does not start with a reset line")
+    for b, lines in enumerate(batches):
         tpath = os.path.join(ctx.tmp, "inst-trace-%s-%d.ndjson" % (tag, b))
         opath = os.path.join(ctx.tmp, "inst-judged-%s-%d.ndjson" % (tag, b))
         common.write_ndjson(tpath, lines)
@@ -192,7 +209,12 @@ def validate_trace(ctx, trace, tag, concurrent=False):
             if "model" in why:
                 raise common.Infra("InstanceTrace: the repaired design itself returns a result outside Pure on %s" % json.dumps(line))
             divs = set()
+            if "result" in why:
+                ctx.note_drift("%s/%s/%s: recorded result is not the model's (detail the statement does not fix)" % (
+                    line["kind"], line["op"], line["tok"]), line)
             for w in why:
+                if w == "result":
+                    continue
                 if w in ("defaults", "cache", "describe") and not state_ok.get(j["line"], True):
                     continue     # caused by an earlier (rejected) call of this history
                 divs.add(TRACE_WHY.get(w, w))
@@ -210,5 +232,5 @@ def validate_trace(ctx, trace, tag, concurrent=False):
                 ctx.violation(sig, dict(trace_line=line, why=why,
                                         note="InstanceTrace.tla rejects this recorded call (history up to it in the replay file)",
                                         history=[l for l in lines[:j["line"]]][-20:]))
-        accepted += sum(1 for l in lines if l["ev"] == "call") - len(rejected)
+        accepted += sum(1 for l in lines if l["ev"] == "call") - sum(1 for j in rejected if set(j["why"]) != {"result"})
     return accepted
